@@ -14,9 +14,11 @@ package martianurl
 //@   modifies filterJSON.*
 //@ func filterFromJSON
 //@   serves C12
+//@   at entry 0 before assert[configuration-keys-are-the-documented-ones] jsonkey(filterJSON.Modifier) == "modifier" && jsonkey(filterJSON.ElseModifier) == "else" && jsonkey(filterJSON.Scope) == "scope" && jsonkey(filterJSON.Scheme) == "scheme" && jsonkey(filterJSON.Host) == "host" && jsonkey(filterJSON.Path) == "path" && jsonkey(filterJSON.Query) == "query"
 //@   modifies fjErr
 //@   noframe
 //@   at entry 0 before set fjErr = false
+//@   at call 0 of NewFilter before assert[condition-is-built-from-the-corresponding-fields-of-the-message] arg0 != nil && arg0.Scheme == msg.Scheme && arg0.Host == msg.Host && arg0.Path == msg.Path && arg0.RawQuery == msg.Query
 //@   ensures[a-parse-error-in-any-subtree-rejects-the-node] fjErr ==> result1 != nil && result0 == nil
 //@   at call 0 of RequestWhenTrue before assert[then-branch-request-side-from-modifier] self == filter.Filter && arg0 == m.reqmod
 //@   at call 0 of ResponseWhenTrue before assert[then-branch-response-side-from-modifier] self == filter.Filter && arg0 == m.resmod
